@@ -95,8 +95,11 @@ class _ForBundlingInstance(DefaultTransformVisitor):
 
             # transform target
             match stmt.target:
+                case NamedId():
+                    # a target the body also assigns is carried under its new name
+                    target: Id | TupleBinding = rename.get(stmt.target, stmt.target)
                 case Id():
-                    target: Id | TupleBinding = stmt.target
+                    target = stmt.target
                 case TupleBinding():
                     target = self._visit_tuple_binding(stmt.target, rename)
                 case _:
